@@ -19,6 +19,8 @@ func Extended(thorough bool) []*spec.Spec {
 	out := []*spec.Spec{XMultiSameMethod(), XCrossFile(), XTwoServiceFiles()}
 	out = append(out, CtxSpecs()...)
 	out = append(out, RouteSpecs(thorough)...)
+	out = append(out, BindSpecs(thorough)...)
+	out = append(out, FlattenSpecs()...)
 	return out
 }
 
@@ -40,6 +42,7 @@ func XCrossFile() *spec.Spec {
 		}}
 	svc := &spec.File{Path: "x_xfile.proto", Package: pkg, Imports: []string{types.Path},
 		Messages: []*spec.Message{
+			spec.M("ItemsByKey", spec.Msg("data", "Items").Map().Unw()),
 			spec.M("Order", spec.F("id", "string"), spec.Msg("total", "Money"), spec.Msg("blob", "Blob"), spec.Msg("stamp", "Stamp"), spec.Msg("place", "Place"),
 				spec.Msg("tagged", "Tagged"), spec.Msg("by_key", "Items").Map(), spec.Msg("shape", "Shape")),
 		},
